@@ -42,7 +42,7 @@ Long == 30000     \* ms without any notification, whatever the poller did
 
 O0 == [kind |-> "none", skip |-> TRUE, disk |-> "", view |-> Unknown, lastScan |-> NoVal,
        pre |-> NoVal, since |-> {}, chg |-> FALSE, pb |-> FALSE, tDone |-> 0 - 1, tChange |-> 0,
-       lastSig |-> FALSE, owes |-> TRUE, inWin |-> FALSE, dr |-> <<>>,
+       lastSig |-> FALSE, owes |-> TRUE, inWin |-> FALSE, tch |-> FALSE, dr |-> <<>>,
        nNoStale |-> 0, nNoticed |-> 0, nObl |-> 0, drift |-> 0, msteps |-> 0, cases |-> 0, aborted |-> 0]
 
 Max(a, b) == IF a > b THEN a ELSE b
@@ -91,13 +91,17 @@ Obs(x, r) ==
     [] r.ev = "Gate" /\ r.point = "poll-before-lock" /\ r.phase = "arrive" ->
          IF x.pb /\ x.tDone < 0 THEN [x EXCEPT !.tDone = r.t] ELSE x
     [] r.ev = "Gate" /\ r.point = "transition-before-relock" ->
-         [Since(ChangeTo(x, r.disk, r.t), r.disk) EXCEPT !.inWin = FALSE]
+         \* tch: the walker sees another disk than at the last observation before the transition's work: only
+         \* the transition can have done that (every external edit is observed together with its effect)
+         [Since(ChangeTo(x, r.disk, r.t), r.disk) EXCEPT !.inWin = FALSE, !.tch = (r.disk # x.disk)]
     [] r.ev = "Edit" -> IF x.inWin THEN ChangeTo(x, r.disk, r.t) ELSE Since(ChangeTo(x, r.disk, r.t), r.disk)
     \* since: the states the disk takes from here on (the walker at the relock gate, later edits, the walker at return)
-    [] r.ev = "TransitionCall" -> [x EXCEPT !.pre = x.lastScan, !.since = {}, !.chg = FALSE, !.inWin = TRUE]
+    [] r.ev = "TransitionCall" -> [x EXCEPT !.pre = x.lastScan, !.since = {}, !.chg = FALSE, !.inWin = TRUE, !.tch = FALSE]
     [] r.ev = "Transition" ->
          LET y == [Since(ChangeTo(x, r.disk, r.t1), r.disk) EXCEPT !.inWin = FALSE] IN
-         IF TransitionChanged(r) THEN [y EXCEPT !.view = Unknown, !.chg = TRUE] ELSE y
+         \* the transition changed the disk: disk before # disk after (none / partial / full outcomes alike), or
+         \* the results it returned say so
+         IF x.tch \/ TransitionChanged(r) THEN [y EXCEPT !.view = Unknown, !.chg = TRUE] ELSE y
     [] r.ev = "Scan" /\ ScanOK(r) ->
          [x EXCEPT !.view = r.snap, !.lastScan = r.snap, !.chg = FALSE, !.owes = FALSE,
                    !.nNoStale = x.nNoStale + (IF x.chg THEN 1 ELSE 0)]
@@ -153,19 +157,19 @@ MPollReturn(m, r) ==
   ELSE R(IF m.cpc = "decide" THEN Pick(CNoTransition(m)) ELSE m, m.sig /\ m.cpc \in {"poll", "decide"})
 
 MTransitionCall(m) ==
-  LET b == Bind(CPlan(m, "planned"), TLock) IN
+  LET b == Bind(CPlan(m, "planned", FALSE), TLock) IN
   IF b = {} THEN R(m, TRUE) ELSE R(Pick(b), FALSE)
 
 MWrite(m, x, r) ==
   IF m.cpc # "twrite" THEN R(m, TRUE)
   ELSE IF r.disk # x.disk
-       THEN R(TWriteV([m EXCEPT !.texp = m.content], r.disk), m.content # m.texp)
-       ELSE R([m EXCEPT !.cpc = "trelock"], m.content = m.texp)
+       THEN R(TWriteV(m, r.disk), FALSE)      \* full or partial: the model admits any changed outcome
+       ELSE R([m EXCEPT !.cpc = "trelock"], m.content = m.texp /\ ~m.tpart)
 
-MTransitionReturn(m, r) ==
+MTransitionReturn(m, x, r) ==
   LET m1 == IF m.cpc = "twrite" THEN [m EXCEPT !.cpc = "trelock"] ELSE m
       b == TRelock(m1)
-  IN IF b = {} THEN R(m, TRUE) ELSE R(Pick(b), m1.changedT # TransitionChanged(r))
+  IN IF b = {} THEN R(m, TRUE) ELSE R(Pick(b), m1.changedT # (x.tch \/ TransitionChanged(r)))
 
 MEdit(m, x, r) ==
   IF r.disk = x.disk THEN R(m, FALSE)
@@ -178,7 +182,7 @@ Model(m, x, r) ==
     [] r.ev = "Scan" /\ ScanOK(r) -> MScan(m, r)
     [] r.ev = "PollReturn" -> MPollReturn(m, r)
     [] r.ev = "TransitionCall" -> MTransitionCall(m)
-    [] r.ev = "Transition" -> MTransitionReturn(m, r)
+    [] r.ev = "Transition" -> MTransitionReturn(m, x, r)
     [] r.ev = "Edit" -> MEdit(m, x, r)
     [] OTHER -> R(m, FALSE)
 
